@@ -107,7 +107,10 @@ Definition check_cut : rd verdict :=
   ret (combine_verdicts [vprop; vdiff]).
 
 Definition check_c07 : rd verdict := kind <- getz ;; if kind =? 1 then check_codec else fail.
-Definition check_c08 : rd verdict := kind <- getz ;; if kind =? 1 then check_detect else if kind =? 2 then check_chain else fail.
+(* bytes in no encoding on the standard input of a command: refused, nothing written *)
+Definition check_junk : rd verdict :=
+  refused <- getbool ;; written <- getz ;; ret (prop_ok 5 (refused && (written =? 0)) [written]).
+Definition check_c08 : rd verdict := kind <- getz ;; if kind =? 1 then check_detect else if kind =? 2 then check_chain else if kind =? 3 then check_junk else fail.
 (* the attack command killed while writing: every result whose response was complete well before
    the kill is in the output, and the output is a clean prefix (sequence 0..n-1) *)
 Definition check_attack_out : rd verdict :=
